@@ -297,14 +297,19 @@ impl Janitor {
       return;
     }
     let cost_to_free = current_cost - context.capacity;
-    let (victims, cost_released) = context.cache_policy[shard_index].evict(cost_to_free);
+    let (victims, _policy_cost) = context.cache_policy[shard_index].evict(cost_to_free);
     if victims.is_empty() {
       return;
     }
+    // The cost gate must be reduced by what actually left the map, not by what the policy
+    // has on record: a nominated key may already be gone (removed by the user while its
+    // admission was still buffered) or may have been overwritten with a different cost.
+    let mut cost_released = 0u64;
     {
       let mut guard = shard.map.write();
       for key in &victims {
         if let Some(removed) = guard.remove(key) {
+          cost_released += removed.cost();
           if let Some(sender) = &context.notification_sender {
             let _ = sender.try_send((key.clone(), removed.value(), EvictionReason::Capacity));
           }
